@@ -27,7 +27,8 @@ type fault struct {
 	rst     bool
 	framing string // cl | chunked | eof
 	headLen int
-	where   string // head | body
+	where   string        // head | body
+	hold    time.Duration // keep the connection open, silent, for this long after the last byte
 }
 
 var faults sync.Map // id -> *fault
@@ -42,6 +43,9 @@ func faultServer(tlsCfg *tls.Config) *lib.Origin {
 		}
 		f := v.(*fault)
 		oc.C.Write(f.resp[:f.cut])
+		if f.hold > 0 {
+			time.Sleep(f.hold)
+		}
 		if f.rst {
 			if tc, ok := oc.C.(*tls.Conn); ok {
 				lib.ResetConn(tc.NetConn())
@@ -110,6 +114,7 @@ type world struct {
 	up           *lib.Origin // faulty upstream proxy
 	ca           *lib.CA
 	deadAddr     string
+	rht          *child // a child with --http-response-header-timeout 1s
 }
 
 func (w *world) upstreamHandler(oc *lib.OConn, req *lib.Msg) lib.Action {
@@ -212,6 +217,9 @@ func main() {
 		return
 	}
 	children := []*child{direct, viaUp, tlsL}
+	if w.rht = startChild(run, w, "response-header-timeout", "--http-response-header-timeout", "1s", "--mitm", "--mitm-domains", `faulttls\.test`); w.rht != nil {
+		children = append(children, w.rht)
+	}
 	upstreamFaults(run, w, root, direct, viaUp)
 	hostileClients(run, w, root, direct, tlsL)
 	fdFlood(run, w)
